@@ -235,8 +235,9 @@ impl<'a, 'b> Cone<'a, 'b> {
             return;
         }
         let m = self.ev.m;
-        if self.mode == ConeMode::End && self.ev.node(n).is_none() {
-            // an invalid node has been unlinked from its inputs
+        if matches!(self.mode, ConeMode::End | ConeMode::StartUnder | ConeMode::Stable) && self.ev.node(n).is_none() {
+            // an invalid node has been unlinked from its inputs (the over-approximating modes keep
+            // going, which is harmless for them)
             return;
         }
         match &m.nodes[n].kind {
